@@ -536,7 +536,12 @@ def perturb(rng, cmd):
     while rest:
         n = {"R": 3, "M": 11, "I": 2, "L": 1, "N": 1}[rest[0]]
         ops.append(rest[:n]); rest = rest[n:]
-    what = rng.randrange(10)
+    what = rng.randrange(11)
+    if what == 10:
+        # trailing empty slots (C13_validate_padding_invariant): the verdict must not move
+        ops = ops + [["N"]] * rng.randrange(1, 7 - min(len(ops), 6)) if len(ops) < 6 else ops
+        head[6] = str(len(ops)); head[0] = "V"
+        return " ".join(head + [x for o in ops for x in o])
     if what == 0 and ops:
         ops[rng.randrange(len(ops))] = rand_operand(rng, rng.random() < 0.3).split()
     elif what == 1:
@@ -596,6 +601,24 @@ def run_validator_stream(ck, d, impl, model, rng, stats):
             et, eid = rng.choice([(0, 0)] * 6 + [(16, 1), (16, 0), (16, 9), (5, 1), (6, 1), (6, 2), (4, 1), (6, 256)])
             inst = rng.choice([rng.randrange(ninst), rng.randrange(ninst), rng.randrange(ninst + 3), ninst, 65535])
             cmds.append("V %d %d %d %d %d %d %s" % (rng.randrange(4), inst, opt, et, eid, nops, " ".join(rand_operand(rng, wild) for _ in range(nops))))
+    # boundaries of the case splits of the proofs: register ids 7/8/15/16/31/32 on every vendored form with a vector or GP register (EVEX and non-EVEX
+    # instructions, both modes), mask register ids 0/1/7/8 as {k}, lone {sae} / {er} / {z} option bits on the same forms
+    seen_inst = {}
+    for c in vend:
+        t = c.split()
+        if t[2] not in seen_inst and " R 11 " in c:
+            seen_inst[t[2]] = c
+    nb = 0
+    for c in seen_inst.values():
+        t = c.split()
+        k = t.index("R", 7)
+        for rid in (7, 8, 15, 16, 31, 32):
+            cmds.append(" ".join(["V"] + t[1:k + 2] + [str(rid)] + t[k + 3:])); nb += 1
+        for et, ei in ((16, 0), (16, 1), (16, 7), (16, 8)):
+            cmds.append(" ".join(["V"] + t[1:4] + [str(et), str(ei)] + t[6:])); nb += 1
+        for ob in (524288, 262144, 8388608, 4096):
+            cmds.append(" ".join(["V", t[1], t[2], str(int(t[3]) | ob)] + t[4:])); nb += 1
+    stats["validator_stream_boundary_cmds"] = nb
     ck.log("validator stream: %d commands" % len(cmds))
     ri = run_sharded(impl, cmds)
     rm = run_sharded(model, cmds)
@@ -929,7 +952,7 @@ def run(ck):
                    "X86DbRows.v": ["C13_signature_rows_present", "C13_db_row_signature_stage", "C13_signature_records_have_db_origin",
                                    "C13_signature_kinds_have_db_origin", "C13_db_decorations_present", "C13_db_row_validates", "C13_db_row_validates_plain"],
                    "X86Forms.v": ["C13_db_forms_validate", "C13_db_excluded_forms_refused", "C13_validate_operand_count_refuted"],
-                   "X86Sigs.v": ["C13_validator_tables_wf", "C13_signature_rows_present", "C13_db_row_signature_stage", "C13_validate_refuses_gpq_in_32bit", "C13_db_forms_validate", "C13_db_excluded_forms_refused", "C13_validate_operand_count_refuted"],
+                   "X86Sigs.v": ["C13_validator_code_cases_match_source", "C13_validator_tables_wf", "C13_signature_rows_present", "C13_db_row_signature_stage", "C13_validate_refuses_gpq_in_32bit", "C13_db_forms_validate", "C13_db_excluded_forms_refused", "C13_validate_operand_count_refuted"],
                    "X86Names.v": ["C13_api_methods_name_their_ids_x86", "C13_find_correct", "C13_name_tables_in_bounds", "C13_name_roundtrip_x86", "C13_alias_roundtrip_x86",
                                   "C13_string_to_inst_id_correct_x86", "C13_string_to_inst_id_none_x86", "C13_alias_formats_roundtrip_x86",
                                   "C13_alias_table_from_formats_x86"],
@@ -954,7 +977,14 @@ def run(ck):
         samples = [{"cmd": c, "impl": x, "model": y} for c, x, y in z[:2] + z[len(z) // 2: len(z) // 2 + 2] + z[-2:]]
     return ck.finish(
         "proof",
-        {"evaluations": stats["names_cmds"] + stats.get("form_cmds", 0) + stats.get("validator_stream_cmds", 0) + stats.get("emitter_history_cmds", 0),
+        {"proved_vs_compared": {
+            "proved_for_all_inputs": "theorems without a vendored list in their statement (find_correct, string_to_inst_id characterisations, validate_pure, emitter_history_irrelevant, "
+                                     "validate_accept_has_signature, refuses_gpq_in_32bit, refuses_vec16_without_evex, padding_invariant, db_row_signature_stage, db_row_validates(_plain), decoration_stages)",
+            "proved_by_reflection_over_regenerated_tables": "round trips of every id/alias/format, signature rows present, records/kinds have database origin, decorations present, "
+                                                            "vendored forms validate / excluded forms refused, row and decorated-row representatives validate, API methods name their ids",
+            "compared_model_vs_implementation_this_run": {k: stats.get(k) for k in ("names_cmds", "form_cmds", "validator_stream_cmds", "emitter_history_cmds", "row_representatives")},
+            "judged_by_independent_oracle_this_run": "database forms (node db/index.js), name tables (python reading), emitter headers (python parser), llvm-mc for disagreements and a64 bytes"},
+         "evaluations": stats["names_cmds"] + stats.get("form_cmds", 0) + stats.get("validator_stream_cmds", 0) + stats.get("emitter_history_cmds", 0),
          "distinct_nontrivial": stats["roundtrips"] + stats["lookups_hit"] + stats.get("db_implemented", 0) + stats.get("mut_both_accept", 0) + stats.get("validator_stream_accepted", 0),
          "rule": "NI: every instruction id of x86 and AArch64 (+ undefined ids); NS: every name and alias, one-edit neighbours, case/NUL/length variants, random "
                  "strings from VERIF_SEED; non-trivial = round trips of defined ids + lookups of strings that are names (counted)",
